@@ -402,32 +402,55 @@ int main(int argc, char **argv)
         fprintf(stderr, "bad thread count\n");
         return 2;
     }
-    /* reference: every program alone, in the main thread */
-    for (i = 0; i < nthreads; i++)
+    /* The FIRST concurrent round runs before anything else has touched the library in this process, so that lazily
+     * initialised or self-tuning shared state is first used concurrently (a warm-up in the main thread would hide it).
+     * Then every program runs alone in the main thread (reference digest), then the remaining concurrent rounds. */
     {
-        progs[i].id = i;
-        solo[i] = run_program(&progs[i]);
-        printf("solo %d %016llx\n", i, (unsigned long long)solo[i]);
-    }
-    for (r = 0; r < rounds; r++)
-    {
-        pthread_t th[MAX_THREADS];
-        pthread_barrier_init(&barrier, NULL, (unsigned)nthreads);
-        for (i = 0; i < nthreads; i++)
+        uint64_t conc[8][MAX_THREADS];
+        int total_rounds = rounds > 8 ? 8 : rounds;
+        for (r = 0; r < total_rounds; r++)
         {
-            pthread_create(&th[i], NULL, thread_main, &progs[i]);
-        }
-        for (i = 0; i < nthreads; i++)
-        {
-            pthread_join(th[i], NULL);
-        }
-        pthread_barrier_destroy(&barrier);
-        for (i = 0; i < nthreads; i++)
-        {
-            if (progs[i].digest != solo[i])
+            pthread_t th[MAX_THREADS];
+            if (r == 1)
             {
-                printf("DIGEST-MISMATCH round %d thread %d: %016llx vs solo %016llx\n", r, i, (unsigned long long)progs[i].digest, (unsigned long long)solo[i]);
-                mismatches++;
+                for (i = 0; i < nthreads; i++)
+                {
+                    progs[i].id = i;
+                    solo[i] = run_program(&progs[i]);
+                    printf("solo %d %016llx\n", i, (unsigned long long)solo[i]);
+                }
+            }
+            pthread_barrier_init(&barrier, NULL, (unsigned)nthreads);
+            for (i = 0; i < nthreads; i++)
+            {
+                pthread_create(&th[i], NULL, thread_main, &progs[i]);
+            }
+            for (i = 0; i < nthreads; i++)
+            {
+                pthread_join(th[i], NULL);
+            }
+            pthread_barrier_destroy(&barrier);
+            for (i = 0; i < nthreads; i++)
+            {
+                conc[r][i] = progs[i].digest;
+            }
+        }
+        if (total_rounds < 2)
+        {
+            for (i = 0; i < nthreads; i++)
+            {
+                solo[i] = run_program(&progs[i]);
+            }
+        }
+        for (r = 0; r < total_rounds; r++)
+        {
+            for (i = 0; i < nthreads; i++)
+            {
+                if (conc[r][i] != solo[i])
+                {
+                    printf("DIGEST-MISMATCH round %d thread %d: %016llx vs solo %016llx\n", r, i, (unsigned long long)conc[r][i], (unsigned long long)solo[i]);
+                    mismatches++;
+                }
             }
         }
     }
